@@ -51,6 +51,8 @@ let oracle (progs : aop list array) (timeline : string) (final : string list) : 
   let forcing : (int * int, role) Hashtbl.t = Hashtbl.create 4 in
   (* create in flight -> (role, par, same-role port surely live during the whole call, misuse) *)
   let err = ref None and misuse = ref false and any_leak = ref false in
+  let icsnap : (int * int, hstate * hstate) Hashtbl.t = Hashtbl.create 4 in   (* is_connected call -> (port, peer) both attached at its begin *)
+  let last_exists = ref None and create_since = ref false in
   let fail m = if !err = None then err := Some m in
   let op_of t k = List.nth progs.(t) k in
   let surely_live h = not h.dropping && not h.gone && not h.leaked in
@@ -61,6 +63,7 @@ let oracle (progs : aop list array) (timeline : string) (final : string list) : 
       let t = int_of_string t and k = int_of_string k in
       (match op_of t k with
        | Cr (r, p) ->
+         create_since := true;
          let covered = ref (List.exists (fun h -> surely_live h && h.role = r) !live) in
          Hashtbl.replace inflight (t, k) (r, p, covered, ref false)
        | Dr j -> (match find t j with Some h -> h.dropping <- true | None -> ());
@@ -72,7 +75,13 @@ let oracle (progs : aop list array) (timeline : string) (final : string list) : 
             || Hashtbl.fold (fun _ (r', _, _, _) acc -> acc || r' = r) inflight false then misuse := true;
          Hashtbl.replace forcing (t, k) r;
          Hashtbl.iter (fun _ (_, _, cov, _) -> cov := false) inflight
-       | Ic _ -> ())
+       | Ic j ->
+         (match find t j with
+          | Some p when surely_live p ->
+            (match List.find_opt (fun q -> surely_live q && q.role <> p.role) !live with
+             | Some q -> Hashtbl.replace icsnap (t, k) (p, q)
+             | None -> ())
+          | _ -> ()))
     | [ "l"; t; j ] ->
       let t = int_of_string t and j = int_of_string j in
       any_leak := true; (match find t j with Some h -> h.leaked <- true | None -> ())
@@ -93,11 +102,20 @@ let oracle (progs : aop list array) (timeline : string) (final : string list) : 
            end
          | Dr j -> (match find t j with Some h -> h.gone <- true | None -> ())
          | Fo _ -> Hashtbl.remove forcing (t, k)
-         | Ic j -> if res = 1 && not (List.exists (fun h -> not h.gone) (List.filter (fun h -> not (h.t = t && h.k = j)) !live) || Hashtbl.length inflight > 0)
+         | Ic j ->
+           (match Hashtbl.find_opt icsnap (t, k) with
+            | Some (p, q) when res = 0 && surely_live p && surely_live q ->
+              fail (Printf.sprintf "is_connected = false on thread %d op %d although a sender and a receiver are both attached for the whole call: the two ports sit on different resources" t k)
+            | _ -> ());
+           if res = 1 && not (List.exists (fun h -> not h.gone) (List.filter (fun h -> not (h.t = t && h.k = j)) !live) || Hashtbl.length inflight > 0)
            then fail (Printf.sprintf "is_connected reported a peer while no other port exists (thread %d op %d)" t k)
          | _ -> ());
         if not exists && List.exists surely_live !live then
-          fail (Printf.sprintf "connection does not exist (does_exist = false after thread %d op %d) while a port is attached to it" t k)
+          fail (Printf.sprintf "connection does not exist (does_exist = false after thread %d op %d) while a port is attached to it" t k);
+        (* a removed connection comes back only through a create_* *)
+        if exists && !last_exists = Some false && not !create_since && Hashtbl.length inflight = 0 then
+          fail (Printf.sprintf "connection exists again after thread %d op %d although nothing created it since it was observed removed" t k);
+        if !last_exists <> Some exists then begin last_exists := Some exists; create_since := Hashtbl.length inflight > 0 end
       end
     | _ -> ()) evs;
   (match final with
@@ -126,14 +144,29 @@ let mk_sys toks =
         | None -> true
         | Some (c', []) -> go c'
         | Some _ -> false in go !c in
+    let agrees = ref false in
     { nthreads = nt; step; finished;
       final_ok = (fun toks ->
+        (* only called when the whole trace agreed with the model *)
         let m = match (fst !c).cur with Some _ -> "1" | None -> "0" in
+        let all_done = let r = ref true in for t = 0 to nt - 1 do if not (finished t) then r := false done; !r in
+        agrees := all_done && (match toks with x :: _ -> x = m | [] -> false);
         match toks with
         | x :: _ when x = m -> None
         | x :: _ -> Some (Printf.sprintf "model exists=%s impl exists=%s" m x)
         | [] -> Some "no final observation");
-      spec = (fun _rets final -> oracle aprogs timeline final) }
+      spec = (fun _rets final ->
+        (* the verdict uses the implementation's observations only; the class tag says whether the model,
+           having agreed with the implementation on the WHOLE execution, explains it *)
+        match oracle aprogs timeline final with
+        | None -> None
+        | Some m ->
+          let g = fst !c in
+          let cls = if not !agrees then "unexplained"
+            else if g.saw_marked then "second-owner-after-mark"
+            else if g.stolen <> [] then "forced-removal-of-live-port"
+            else "unexplained" in
+          Some (m ^ " class=" ^ cls)) }
   | _ -> failwith "unknown case header"
 
 (* ================= explorer of the extracted model ================= *)
@@ -275,8 +308,30 @@ let run_main args =
        (match u.u_rm with Some i -> string_of_int (int_of_nat i) | None -> "-") (int_of_n u.u_st) u.u_att (if conn_unlink_good u then "good" else "BAD")) !s.g.unl))
     !s.g.saw_marked (List.length !s.g.stolen)
 
+(* observations only (posix_shared_memory runs): C header with the timeline, R lines ignored, F final *)
+let oracle_main () =
+  let cases = ref 0 and mm = ref 0 and ops = ref 0 in
+  let cur = ref None in
+  (try while true do
+     let line = input_line stdin in
+     match split_on ' ' line with
+     | "C" :: rest -> incr cases; cur := Some rest
+     | "R" :: _ -> incr ops
+     | "F" :: rest ->
+       (match !cur with
+        | Some (_ :: prog :: timeline :: _ as hdr) ->
+          (match oracle (parse_prog prog) timeline (match rest with x :: _ -> split_on ',' x | [] -> []) with
+           | Some m -> incr mm; Printf.printf "MISMATCH case=%d kind=spec header=[%s] %s class=unexplained\n" !cases (String.concat " " hdr) m
+           | None -> ())
+        | _ -> ());
+       cur := None
+     | _ -> ()
+   done with End_of_file -> ());
+  Printf.printf "SUMMARY cases=%d ops=%d mismatches_model=0 mismatches_spec=%d distinct_nontrivial=%d\n" !cases !ops !mm !cases
+
 let () =
   match Array.to_list Sys.argv with
+  | _ :: "oracle" :: _ -> oracle_main ()
   | _ :: "explore" :: rest -> explore_main rest
   | _ :: "run" :: rest -> run_main rest
   | _ :: "prog" :: rest -> prog_main rest
